@@ -139,6 +139,18 @@ check('C12', 'exploration',
       TB, 'exhaustive enumeration of the operand x weight cube against the documented formula', 'E5',
       'DESIGN.md §4 C12')
 
+check('C11', 'exploration',
+      'multiunion for all 16 integer-key families and both implementations: (a) every operand list of length '
+      '<= 2 (and a reduced alphabet of length 3) whose operands are ints or Set/TreeSet/Bucket/BTree/list/'
+      'generator over any subset of a 5-point universe containing both extremes of the key type; (b) a '
+      'deterministic catalogue of key sequences (arithmetic progressions anchored at both range ends, around '
+      'zero and around the top-bit boundary with steps up to 2^24+1; byte-alphabet products at several byte '
+      'positions) of total size 799..4096 - both sides of the quicksort/radix switch - in ascending, '
+      'descending, stride-interleaved and with-duplicates order, passed as one, two or many operands; result '
+      '== sorted(set(inputs)), is the family Set, membership and range queries agree.',
+      TB, 'exhaustive enumeration of a small operand space plus a deterministic boundary catalogue', 'E5',
+      'DESIGN.md §4 C11')
+
 PENDING = ['C%02d' % i for i in range(1, 20)]
 
 
